@@ -369,6 +369,7 @@ func init() {
 	hx.Register("codec-ix-write", func(args []string) {
 		fs := flag.NewFlagSet("codec-ix-write", flag.ExitOnError)
 		fs.Parse(args)
+		defer startProfile()()
 		o := hx.NewOut(os.Stdout)
 		defer o.Flush()
 		n, failed := 0, 0
@@ -398,6 +399,7 @@ func init() {
 	hx.Register("codec-ix-observe", func(args []string) {
 		fs := flag.NewFlagSet("codec-ix-observe", flag.ExitOnError)
 		fs.Parse(args)
+		defer startProfile()()
 		o := hx.NewOut(os.Stdout)
 		defer o.Flush()
 		n := 0
